@@ -88,7 +88,27 @@ func sameCatalogOracle(prop, what string) func(c *vlib.Case) *vlib.Violation {
 
 var regexTypeRe = regexp.MustCompile(`(?:^|[\r\n])[ \t]*TYPE[ \t]+\S+[ \t]+"?regex`)
 
+// hasRegexType: does the project declare a user type of the regex notation?  Decided on the catalog of an unbanned build
+// (the text of a TYPE line may carry comments between its tokens); the line pattern is the fallback for rejected projects.
 func hasRegexType(p *vlib.Project) bool {
+	q := p.Clone()
+	q.Banned = nil
+	b := vlib.Build(q)
+	defer b.Close()
+	if b.Out.OK() {
+		if js, err := b.Api.ToJson(); err == nil {
+			if doc, err := vlib.ParseOrdered(js); err == nil {
+				if ut := doc.Get("userTypes"); ut != nil {
+					for _, t := range ut.Vals {
+						if sc := t.Get("schema"); sc != nil && sc.S("notation") == "regex" {
+							return true
+						}
+					}
+				}
+				return false
+			}
+		}
+	}
 	for _, b := range p.Files {
 		if regexTypeRe.Match(b) {
 			return true
